@@ -115,7 +115,10 @@ class CommandsTagsWrapper(CommandWrapper):
 
     async def incr(self, key: Key, value: int = 1, expire: float | None = None, tags: Tags = ()) -> int:
         _set = await super().incr(key=key, value=value, expire=expire)
-        if _set and tags:
+        if tags:
+            # backends apply `expire` only when the counter is created (result == 1); otherwise the key
+            # keeps the deadline it already had, so the tag membership must not expire before it
+            tag_expire = expire if _set == 1 else None
             for tag in tags:
-                await self.set_add(self._tags_key_prefix + tag, key, expire=expire)
+                await self.set_add(self._tags_key_prefix + tag, key, expire=tag_expire)
         return _set
